@@ -210,3 +210,82 @@ def rand_history(rng, maxops=6, p_raise=0.0, p_ignore=0.1, distinct_only=False):
             ops.append(["reset"])
     ops.append(call(None, PROBE))
     return {"fns": mk_fns(pool, rand_raises(rng, p_raise)), "ops": resolve(ops), "pool": pool, "gen": "random"}
+
+
+# ---------------------------------------------------------------- C19: raising callbacks, both policies
+
+RAISE_SMALL = [[], [["start", None, None]], [["event", None, 2]], [["stop", None, None]]]
+RAISE_FULL = RAISE_SMALL + [[["descriptor", None, None]], [["event", None, None]],
+                            [["start", None, None], ["descriptor", None, None], ["event", None, None], ["stop", None, None]]]
+PLANS19 = [
+    [["open"], ["event"], ["event"], ["close"]],
+    [["open"], ["event"], ["close"], ["open"], ["event"], ["close"]],
+    [["open"], ["event"]],                                  # run left open: closed by the engine
+]
+
+
+def enumerate_policy(raise_sets, orders):
+    for order in orders:
+        for rs in itertools.product(range(len(raise_sets)), repeat=3):
+            for ign in (True, False):
+                for pi, plan in enumerate(PLANS19):
+                    raises = [raise_sets[i] for i in rs]
+                    ops = [["ignore", ign]] + [["sub", f, "all"] for f in order] + [call(None, plan)]
+                    yield {"fns": mk_fns("fmo", raises), "ops": resolve(ops), "pool": "fmo",
+                           "gen": "policy ign=%d plan=%d" % (ign, pi)}
+
+
+def rand_policy_history(rng):
+    """Each of the three callables is subscribed at most once in the whole history (so no cid is ever
+    shared): permanently, per call, or by an in-plan message; random kinds, raise patterns, policies."""
+    pool = rng.choice(["fmo", "mmo", "fmo"])
+    raises = rand_raises(rng, 0.6)
+    roles = [rng.choice(["perm", "percall", "inplan", "perm", "none"]) for _ in range(3)]
+    ncalls = rng.randint(1, 3)
+    where = [rng.randrange(ncalls) for _ in range(3)]
+    ops = []
+    if rng.random() < 0.8:
+        ops.append(["ignore", rng.random() < 0.5])
+    for f in range(3):
+        if roles[f] == "perm" and rng.random() < 0.7:
+            ops.append(["sub", f, rand_name(rng, bad=0.0)])
+            roles[f] = "done"
+    for k in range(ncalls):
+        items = {}
+        for f in range(3):
+            if roles[f] == "percall" and where[f] == k:
+                items.setdefault(rng.choice(["all", "all", "start", "stop", "event", "descriptor"]), []).append(f)
+        plan = []
+        is_open = False
+        for _ in range(rng.randint(2, 7)):
+            x = rng.random()
+            if not is_open:
+                plan.append(["open"])
+                is_open = True
+            elif x < 0.55:
+                plan.append(["event"])
+            elif x < 0.8:
+                plan.append(["close"])
+                is_open = False
+            else:
+                plan.append(["null"])
+        if is_open and rng.random() < 0.75:
+            plan.append(["close"])
+        for f in range(3):
+            if roles[f] == "inplan" and where[f] == k:
+                pos = rng.randint(0, len(plan))
+                plan.insert(pos, ["sub", f, rand_name(rng, bad=0.0)])
+                if rng.random() < 0.3:
+                    plan.insert(rng.randint(pos + 1, len(plan)), ["unsub", "-1", rng.choice(["arg", "kw"])])
+        spec = {"form": "dict", "items": [[n, fs] for n, fs in items.items()]} if items else no_subs()
+        ops.append(["call", spec, plan])
+        for f in range(3):
+            if roles[f] == "perm" and rng.random() < 0.5:
+                ops.append(["sub", f, rand_name(rng, bad=0.0)])
+                roles[f] = "done"
+        x = rng.random()
+        if x < 0.2:
+            ops.append(["ignore", rng.random() < 0.5])
+        elif x < 0.35:
+            ops.append(["unsub", rng.choice(["#0", "#1", "-1"])])
+    return {"fns": mk_fns(pool, raises), "ops": resolve(ops), "pool": pool, "gen": "random-policy"}
